@@ -4,6 +4,6 @@ From Coq Require Import Extraction ExtrOcamlBasic NArith.
 From Engine Require Import Model Spec.
 Extraction Language OCaml.
 Extraction "engine_model.ml"
-  init step current pinned mkVariant advance_to dump_pit dump_fib now timers npid panicked
+  init step current pinned mkVariant advance_to next_due dump_pit dump_fib now pit fib inc timers npid panicked hget hnext
   sinit spec_step spec_final sp_npid sp_now
   N.add N.sub N.mul N.of_nat N.to_nat N.eqb N.ltb N.leb N.div N.modulo.
